@@ -91,4 +91,56 @@ EnumAttrs == <<
     [at |-> "defaulted", code |-> 139, family |-> "DW_DEFAULTED_"] >>
 EnumForms == <<"data1", "data2", "udata">>
 
+-----------------------------------------------------------------------------
+(* Forms and classes (DWARF 5, 7.5.5 and 7.5.6; the GNU precursors of the indexed forms).  A form of the  *)
+(* classes address, string, rnglist and loclist only says WHERE the datum is stored -- in the DIE, in a     *)
+(* string section, or in a table of the unit reached through an index and a base attribute of the unit's   *)
+(* root.  MEANING: `value' yields the datum, whatever the form (Transparent).  MECHANISM: the switch over    *)
+(* dwarf_whatform in at_value (atval.cc), transcribed as the branch each form takes.                        *)
+FormTable == <<
+    [form |-> "addr",           class |-> "address", direct |-> "addr",      minver |-> 2],
+    [form |-> "addrx",          class |-> "address", direct |-> "addr",      minver |-> 5],
+    [form |-> "addrx1",         class |-> "address", direct |-> "addr",      minver |-> 5],
+    [form |-> "addrx2",         class |-> "address", direct |-> "addr",      minver |-> 5],
+    [form |-> "addrx3",         class |-> "address", direct |-> "addr",      minver |-> 5],
+    [form |-> "addrx4",         class |-> "address", direct |-> "addr",      minver |-> 5],
+    [form |-> "GNU_addr_index", class |-> "address", direct |-> "addr",      minver |-> 4],
+    [form |-> "string",         class |-> "string",  direct |-> "string",    minver |-> 2],
+    [form |-> "strp",           class |-> "string",  direct |-> "string",    minver |-> 2],
+    [form |-> "line_strp",      class |-> "string",  direct |-> "string",    minver |-> 5],
+    [form |-> "strx",           class |-> "string",  direct |-> "string",    minver |-> 5],
+    [form |-> "strx1",          class |-> "string",  direct |-> "string",    minver |-> 5],
+    [form |-> "strx2",          class |-> "string",  direct |-> "string",    minver |-> 5],
+    [form |-> "strx3",          class |-> "string",  direct |-> "string",    minver |-> 5],
+    [form |-> "strx4",          class |-> "string",  direct |-> "string",    minver |-> 5],
+    [form |-> "GNU_str_index",  class |-> "string",  direct |-> "string",    minver |-> 4],
+    [form |-> "rangelist",      class |-> "rnglist", direct |-> "rangelist", minver |-> 3],
+    [form |-> "rnglistx",       class |-> "rnglist", direct |-> "rangelist", minver |-> 5],
+    [form |-> "loclist",        class |-> "loclist", direct |-> "loclist",   minver |-> 2],
+    [form |-> "loclistx",       class |-> "loclist", direct |-> "loclist",   minver |-> 5] >>
+FormRows == {FormTable[i] : i \in 1..Len(FormTable)}
+
+CONSTANT PinnedForms      \* TRUE: the switch as it was before fix 433e4b2 (self-test)
+\* the branch of the switch in at_value that a form takes
+Branch(f) ==
+    CASE f \in {"string", "strp", "line_strp", "strx", "strx1", "strx2", "strx3", "strx4"} -> "formstring"
+      [] f = "GNU_str_index" -> IF PinnedForms THEN "unhandled" ELSE "formstring"
+      [] f \in {"addr", "addrx1", "addrx2", "addrx3", "addrx4"} -> "formaddr"
+      [] f \in {"addrx", "GNU_addr_index"} -> IF PinnedForms THEN "unhandled" ELSE "formaddr"
+      [] f \in {"rangelist", "loclist"} -> "by-attribute"      \* sec_offset / data4: handle_at_dependent_value
+      [] f = "rnglistx" -> "die-ranges"
+      [] f = "loclistx" -> "locexpr"
+      [] OTHER -> "unhandled"
+\* what a branch yields for a datum of the class (by-attribute: DW_AT_ranges gives the ranges, the location
+\* attributes a location list -- Loc!LocAttrs)
+Yields(b, class) ==
+    CASE b = "formstring" -> IF class = "string" THEN "datum" ELSE "wrong"
+      [] b = "formaddr" -> IF class = "address" THEN "datum" ELSE "wrong"
+      [] b = "die-ranges" -> IF class = "rnglist" THEN "datum" ELSE "wrong"
+      [] b = "locexpr" -> IF class = "loclist" THEN "datum" ELSE "wrong"
+      [] b = "by-attribute" -> IF class \in {"rnglist", "loclist"} THEN "datum" ELSE "wrong"
+      [] OTHER -> "error"
+Transparent == \A r \in FormRows : Yields(Branch(r.form), r.class) = "datum"
+DirectIsDirect == \A r \in FormRows : \E q \in FormRows : q.form = r.direct /\ q.direct = q.form /\ q.class = r.class
+
 =============================================================================
